@@ -2,6 +2,9 @@
 From Coq Require Import List ZArith NArith Lia Bool.
 From AG Require Import Str F64 Value Json Expr Ops Pipeline F64_exact_proofs Value_proofs Expr_proofs Agg_proofs Perm_proofs.
 Import ListNotations.
+From Coq Require Import Reals Floats.SpecFloat.
+From Flocq Require Import Core BinarySingleNaN.
+From AG Require Import Dec_proofs.
 Open Scope Z_scope.
 
 (** a JSON integer inside the 64-bit range stays exactly that integer *)
@@ -76,3 +79,27 @@ Example C08_examples :
   json_to_value (JInt 18446744073709551615) = VFloat (f_of_Z 18446744073709551615) /\
   vadd (VInt 9223372036854775807) (VInt 1) = Ok (VFloat (f_of_Z 9223372036854775808)).
 Proof. vm_compute. repeat split. Qed.
+
+(** decimal text -> double is CORRECTLY ROUNDED: for a decimal  (-1)^neg * m * 10^e10  the model's
+    conversion (used for every number read from JSON text, logfmt, parse and query literals) returns
+    the binary64 value nearest to the exact decimal value, ties to even, whenever that value is in
+    range; beyond the range guards it is an infinity resp. a zero, which is what the exact value
+    rounds to *)
+Theorem C08_decimal_correctly_rounded : forall (neg : bool) (m e10 : Z),
+  0 < m -> e10 <= 400 ->
+  (Rabs (rnd64 (dec_value neg m e10)) < bpow radix2 1024)%R ->
+  SF2R radix2 (f_of_dec neg m e10) = rnd64 (dec_value neg m e10).
+Proof. exact f_of_dec_correct. Qed.
+Print Assumptions C08_decimal_correctly_rounded.
+
+Theorem C08_decimal_underflow : forall (neg : bool) (m e10 : Z),
+  0 < m -> e10 < 0 -> 800 + Z.log2 m < - e10 ->
+  rnd64 (dec_value neg m e10) = 0%R /\ f_of_dec neg m e10 = S754_zero neg.
+Proof. exact f_of_dec_guard_small. Qed.
+Print Assumptions C08_decimal_underflow.
+
+Theorem C08_decimal_overflow : forall (neg : bool) (m e10 : Z),
+  0 < m -> 400 < e10 ->
+  (bpow radix2 1024 <= Rabs (dec_value neg m e10))%R /\ f_of_dec neg m e10 = S754_infinity neg.
+Proof. exact f_of_dec_guard_large. Qed.
+Print Assumptions C08_decimal_overflow.
